@@ -1,7 +1,7 @@
 #!/bin/bash
 # seedverify.sh <Cxx> <k> : confirm seeded change k of property Cxx in its scratch worktree /tmp/wt/Cxx:
 #  demo fails with the change, the repo's stable tests pass with it, demo passes without it; then copy to /verif/seeded/Cxx-k
-pid="$1"; k="$2"; wt=/tmp/wt/$pid; sd=$wt/_seed
+pid="$1"; k="$2"; wt=${SEEDROOT:-/tmp/wt}/$pid; sd=$wt/_seed
 cd $wt || exit 3
 git checkout -q -- . ; 
 cp /repo/pyamg/amg_core/tests/*.so pyamg/amg_core/tests/ 2>/dev/null
